@@ -31,6 +31,7 @@ inductive VD where
   | dynView (sig : Nat) (alts : VDAlts)        -- `View::from_dynamic(move || alts[sig.get() % n])`
   | show (sig : Nat) (children : VDList)       -- `Show(when = sig.get() % 2 == 1) { children }`
   | frag (children : VDList)
+  | noHydrate (children : VDList)              -- `NoHydrate { children }`: on the client (not hydrating) just the children
 inductive VDList where
   | nil | cons (v : VD) (rest : VDList)
 inductive VDAlts where
@@ -53,6 +54,7 @@ inductive Inst where
   | dynView (startId endId : Nat) (sig : Nat) (alts : VDAlts) (cur : InstList)
   | show (startId endId : Nat) (sig : Nat) (children : InstList)
   | frag (children : InstList)
+  | island (children : InstList)               -- mounted `NoHydrate`: behaves like a fragment on the client
 inductive InstList where
   | nil | cons (i : Inst) (rest : InstList)
 end
@@ -75,6 +77,9 @@ def mount (σ : Store) : VD → Nat → Inst × Nat
   | .frag cs, k =>
     let (ci, k') := mountList σ cs k
     (.frag ci, k')
+  | .noHydrate cs, k =>
+    let (ci, k') := mountList σ cs k
+    (.island ci, k')
 def mountList (σ : Store) : VDList → Nat → InstList × Nat
   | .nil, k => (.nil, k)
   | .cons v rest, k =>
@@ -111,6 +116,9 @@ def update (σ : Store) (s : Nat) : Inst → Nat → Inst × Nat
   | .frag cs, k =>
     let (cs', k') := updateList σ s cs k
     (.frag cs', k')
+  | .island cs, k =>
+    let (cs', k') := updateList σ s cs k
+    (.island cs', k')
 def updateList (σ : Store) (s : Nat) : InstList → Nat → InstList × Nat
   | .nil, k => (.nil, k)
   | .cons i rest, k =>
@@ -143,6 +151,7 @@ def dom (σ : Store) : Inst → List DTree
   | .dynView a b _ _ cur => [.comment a] ++ domList σ cur ++ [.comment b]
   | .show a b sig cs => [.comment a] ++ (if σ.get sig % 2 = 1 then domList σ cs else []) ++ [.comment b]
   | .frag cs => domList σ cs
+  | .island cs => domList σ cs
 def domList (σ : Store) : InstList → List DTree
   | .nil => []
   | .cons i rest => dom σ i ++ domList σ rest
